@@ -2,7 +2,7 @@
 import eng
 import gen
 from engcorr import c01_monitor, engine_check, split_ops
-from framework import lean_obligations
+from framework import lean_obligations, safe_probe
 
 PROFILE = gen.Profile(
     max_states=5, extra_trans=(1, 8), p_multi_event=0.45, max_events=4,
@@ -236,7 +236,7 @@ def probe_inherited_event_names():
 
 def run(ctx):
     lean_obligations(ctx)
-    pf2 = probe_inherited_event_names()
+    pf2 = safe_probe(probe_inherited_event_names)
     if pf2:
         ctx.violation(ctx.write_replay("inherited_event_names.txt", "\n".join(pf2) + "\n"), pf2[0])
     ctx.coverage["rule"] = ("seeded random machines and histories; every send uses one of five calling styles (sm.send, "
@@ -244,7 +244,7 @@ def run(ctx):
                             "object with bind_events_to); 22% of sends use a name drawn from dir(StateMachine), state "
                             "ids, dunders, near-misses ('Go', 'go ') under allow on/off; allowed_events/events observed "
                             "throughout; non-trivial = >=2 styles mixed or an attribute name sent")
-    pf = probe_trigger_outlives_machine()
+    pf = safe_probe(probe_trigger_outlives_machine)
     if pf:
         ctx.violation(ctx.write_replay("trigger_outlives_machine.txt", "\n".join(pf) + "\n"), pf[0])
     engine_check(ctx, PROFILE, 800, 20000, nontrivial, monitor=monitor, tag="C13s", mutate=mutate, share=0.62)
